@@ -58,6 +58,7 @@ def gen_flow(rng, tier):
             "scale": rng.choice([0.5, 1.5, 3.0, 4.0]), "shift": rng.choice([0.0, 0.5, -2.0, 3.0]),
             "special": rng.random() < 0.3, "max_batches": 0, "npop": rng.choice([1, 2]),
             "max_samples": rng.choice([None, None, 10, 30]) if acc else None, "cls": "flow"})
+        radius_sequence(rng, cases[-1])
     n_real = 8 if tier == "quick" else 60
     for i in range(n_real):
         cls = "augmented" if i % 4 == 3 else "flow"
@@ -70,10 +71,29 @@ def gen_flow(rng, tier):
             "radius": rng.choice([1.5, 2.5]), "expansion": rng.choice([None, 4.0]),
             "flow": "trained" if i % 4 == 1 else "real", "scale": 1.0, "shift": 0.0, "special": False,
             "max_batches": 0, "npop": 2, "max_samples": None, "cls": cls})
+        radius_sequence(rng, cases[-1])
     for c in cases:
         if not c["max_batches"]:
             c["max_batches"] = 60 + 600 // c["drawsize"]
     return cases
+
+
+def radius_sequence(rng, c):
+    """How the latent radius of successive populations of ONE proposal object is obtained: fixed (constant volume or
+    fixed_radius), computed from the worst point handed to each population, or given explicitly to populate(r=...).
+    In the last two modes the radius changes from one population to the next (shrinking and growing sequences)."""
+    if c["cvm"]:
+        c["radius_mode"] = "fixed"
+        return
+    c["radius_mode"] = rng.choice(["fixed", "worst", "worst", "explicit"])
+    if c["radius_mode"] != "fixed":
+        c["npop"] = rng.choice([2, 3, 4])
+        c["worst_idx"] = [rng.randrange(40) for _ in range(c["npop"])]
+        rs = [rng.choice([0.6, 1.0, 1.5, 2.5, 3.5]) for _ in range(c["npop"])]
+        if rng.random() < 0.5:
+            rs.sort(reverse=rng.random() < 0.7)
+        c["radii"] = rs
+        c["radius_all"] = c["radius_mode"] == "worst" and rng.random() < 0.2
 
 
 def gen_rej(rng, tier):
@@ -167,6 +187,25 @@ def check_pool(pop, support, N, exact):
         flags = [f for _, f in pop["draws"]]
         if flags and (flags[-1] or not all(flags[:-1])):
             fails.append(("C09:populated-flag", f"populated flags after each draw: {flags}"))
+    return fails
+
+
+def check_contour(c, pop):
+    """Radially truncated latent priors: every latent point of THIS population lies inside THIS population's contour
+    r * fuzz, and (truncated Gaussian) was drawn with the truncation of that contour."""
+    fails = []
+    if c["latent"] not in ("truncated_gaussian", "uniform_nball") or pop.get("r") is None or not pop.get("n_latent"):
+        return fails
+    lim = pop["r"] * pop["fuzz"]
+    if pop["z_max_radius"] > lim * (1 + 1e-9):
+        fails.append(("C09:latent-outside-contour", f"a latent point of the population has radius {pop['z_max_radius']:.6g} > "
+                      f"r * fuzz = {lim:.6g} (r = {pop['r']:.6g}, radius mode {c.get('radius_mode')})"))
+    if "umax_used" in pop:
+        lo, hi, want = pop["umax_used"][0], pop["umax_used"][1], pop["umax_want"]
+        if want < 1 - 1e-9 and (abs(lo - want) > 1e-6 * want + 1e-12 or abs(hi - want) > 1e-6 * want + 1e-12):
+            fails.append(("C09:latent-contour-not-covered", f"the latent points were drawn with truncation mass in "
+                          f"[{lo:.6g}, {hi:.6g}] but the contour r * fuzz = {lim:.6g} has mass {want:.6g}: the pool does not "
+                          f"cover the contour (radius mode {c.get('radius_mode')})"))
     return fails
 
 
@@ -299,6 +338,7 @@ def run(chk):
         strict = False      # today's backward_pass masks z too; strict = True is the refuted pre-fix variant of the model
         for pi, pop in enumerate(r["pops"]):
             chk.count(f"flow:{c['flow']}:{c['cls']}:{'acc' if c['acc'] else 'plain'}")
+            chk.count(f"flow:radius-mode:{c.get('radius_mode', 'fixed')}")
             if pop.get("dup"):
                 chk.count("flow:skipped-duplicate-candidates")
                 continue
@@ -329,6 +369,8 @@ def run(chk):
                              f"({c['max_batches']} batches drawn)", {"kind": "flow", "case": c, "population": pi})
             else:
                 exact = not (c["acc"] and c["max_samples"] is not None)
+                for key, what in check_contour(c, pop):
+                    chk.fail(key, what, {"kind": "flow", "case": c, "population": pi})
                 for key, what in check_pool(pop, support, c["N"], exact):
                     chk.fail(key, what, {"kind": "flow", "case": c, "population": pi})
                 if any(not support[x[0]] or not fin(x[1]) for x in cands):
@@ -521,6 +563,7 @@ def replay(data):
             if "error" in pop:
                 fails.append(("C09:populate-raised", pop["error"]))
             elif not pop.get("cap") and not pop.get("empty_pool"):
+                fails += check_contour(c, pop)
                 fails += check_pool(pop, support, c["N"], not (c["acc"] and c["max_samples"] is not None))
     elif kind == "rej" and "error" not in res:
         cands = [x for b in res["batches"] for x in b]
